@@ -428,8 +428,8 @@ def run(ctx):
         "release_cases": 8, "hold_cases": 2 * len(BYSTANDERS) - 1, "hold_case_repetitions": 150,
         "samples": [{"kinds": jobs[1][0], "schedule_prefix": jobs[1][2]}, {"kinds": jobs[-1][0], "schedule_prefix": jobs[-1][2]}],
         "rule": "every schedule with <= %d preemptions of two concurrent stepping requests (all 6 unordered kind pairs, and pairs with a request that has no JSON body at <= 1%s) at the source lines of the stepping "
-                "handlers, the streamer, lock/unlock/is_locked/try_lock and the session-touching lines of bptk.run_step; plus 8 sequential release cases and 23 hold cases (a stream in progress x 12 bystander requests x with/without a state adapter: the lock is kept, the stream undisturbed)" % (
-                    bound, "; three requests: " + ", ".join("%s<=%d" % ("+".join(k), b) for k, b in triples)),
+                "handlers, the streamer, lock/unlock/is_locked/try_lock and the session-touching lines of bptk.run_step; plus 8 sequential release cases and %d hold cases (a stream in progress x %d bystander requests, two of them 150 refused stepping requests in a row, x with/without a state adapter: the lock is kept, the stream undisturbed)" % (
+                    bound, "; three requests: " + ", ".join("%s<=%d" % ("+".join(k), b) for k, b in triples), 2 * len(BYSTANDERS) - 1, len(BYSTANDERS)),
     }, assumptions=["preemption at source-line granularity only", "Flask test clients in controlled threads instead of a threaded WSGI server",
                     "the per-equation simulation threads of a step run to completion inside their parent's turn"])
 
